@@ -1208,7 +1208,18 @@ def oracle_C20(rs, n, ctx):
         except Exception as ex:  # noqa: BLE001
             R.violate("C20:grid-raises", f"{type(ex).__name__}: {ex}", rep)
             continue
-        P = np.asarray(mesh.points)
+        # history: the same export repeated in the same process gives the same mesh, and a mesh already handed out is not
+        # changed by later exports (no state shared between calls)
+        P_first = np.array(mesh.points, copy=True)
+        try:
+            mesh2 = fteikpy.grid_to_meshio(*args)
+            if not np.array_equal(np.asarray(mesh2.points), P_first):
+                R.violate("C20:repeat-export", f"the second export of the same grids has different points (max |diff| {np.abs(np.asarray(mesh2.points) - P_first).max():.3e})", rep)
+            if not np.array_equal(np.asarray(mesh.points), P_first):
+                R.violate("C20:repeat-export", "a mesh already returned was modified by a later export", rep)
+        except Exception as ex:  # noqa: BLE001
+            R.violate("C20:grid-raises", f"second export: {type(ex).__name__}: {ex}", rep)
+        P = np.asarray(P_first)
         nn = tuple(c + 1 for c in cells)
         if len(P) != int(np.prod(nn)):
             R.violate("C20:points", f"{len(P)} points for {nn} nodes", rep)
